@@ -413,6 +413,7 @@ func (p *Prog) Normalise(known map[string]bool, keep func(*ssa.Function) bool) (
 				if inlinedInto[fn] {
 					devirtBoundCalls(fn)
 				}
+				stripNamedFuncCalls(fn)
 			scan:
 				for _, b := range fn.Blocks {
 					for _, in := range b.Instrs {
@@ -441,6 +442,10 @@ func (p *Prog) Normalise(known map[string]bool, keep func(*ssa.Function) bool) (
 			if inlinedInto[fn] && resolveStructFields(fn) {
 				changed = true
 			}
+			for i := 0; i < 3 && specialiseTablePhis(fn, inlinedInto[fn]); i++ {
+				nSpec++
+				changed = true
+			}
 			n := UnrollTableLoops(fn)
 			for i := 0; i < 4 && specialiseConstIndex(fn); i++ {
 				nSpec++
@@ -462,6 +467,9 @@ func (p *Prog) Normalise(known map[string]bool, keep func(*ssa.Function) bool) (
 					}
 					changed = true
 				}
+			}
+			if (nLoops > 0 || nMaps > 0 || nSpec > 0) && removeDeadCode(fn) {
+				changed = true
 			}
 			if !changed {
 				break
@@ -528,6 +536,56 @@ func (p *Prog) Normalise(known map[string]bool, keep func(*ssa.Function) bool) (
 	p.Funcs = filter(p.Funcs)
 	p.AllFuncs = filter(p.AllFuncs)
 	return log, tables
+}
+
+// stripNamedFuncCalls: a call of a function literal through a named function
+// type (`type step func() error; steps := []step{func() error {…}}`) calls
+// the literal.
+func stripNamedFuncCalls(fn *ssa.Function) {
+	changed := false
+	for _, b := range fn.Blocks {
+		for _, in := range b.Instrs {
+			call, ok := in.(*ssa.Call)
+			if !ok || call.Call.IsInvoke() {
+				continue
+			}
+			if ct, ok := call.Call.Value.(*ssa.ChangeType); ok {
+				switch ct.X.(type) {
+				case *ssa.Function, *ssa.MakeClosure:
+					call.Call.Value = ct.X
+					changed = true
+				}
+			}
+			// a method expression `(*T).m` used as a function value is a thunk that
+			// calls the method with the same arguments
+			if w, ok := call.Call.Value.(*ssa.Function); ok && strings.Contains(w.Synthetic, "thunk") && len(w.Blocks) == 1 {
+				for _, win := range w.Blocks[0].Instrs {
+					inner, ok := win.(*ssa.Call)
+					if !ok || inner.Call.IsInvoke() {
+						continue
+					}
+					target := inner.Call.StaticCallee()
+					if target == nil || len(inner.Call.Args) != len(call.Call.Args) || len(w.Params) != len(inner.Call.Args) {
+						continue
+					}
+					same := true
+					for i, a := range inner.Call.Args {
+						if a != ssa.Value(w.Params[i]) {
+							same = false
+						}
+					}
+					if same {
+						call.Call.Value = target
+						changed = true
+					}
+					break
+				}
+			}
+		}
+	}
+	if changed {
+		rebuildReferrers(fn)
+	}
 }
 
 func isExportedEntry(f *ssa.Function) bool {
@@ -611,8 +669,37 @@ func constCond(v ssa.Value, d int) (bool, bool) {
 				return (a == b) == (x.Op == token.EQL), true
 			}
 		}
+		// nil tests of values that are nil, or cannot be
+		if IsNilConst(x.Y) || IsNilConst(x.X) {
+			o := x.X
+			if IsNilConst(o) {
+				o = x.Y
+			}
+			if IsNilConst(o) {
+				return x.Op == token.EQL, true
+			}
+			if definitelyNonNil(o) {
+				return x.Op == token.NEQ, true
+			}
+		}
 	}
 	return false, false
+}
+
+// definitelyNonNil: an address of a local or global, a function, a closure, or
+// an interface made from one of those.
+func definitelyNonNil(v ssa.Value) bool {
+	switch x := v.(type) {
+	case *ssa.Alloc, *ssa.Global, *ssa.Function, *ssa.MakeClosure, *ssa.MakeMap, *ssa.MakeSlice, *ssa.MakeChan:
+		return true
+	case *ssa.FieldAddr, *ssa.IndexAddr:
+		return true
+	case *ssa.MakeInterface:
+		return true // an interface holding a (possibly nil) value is not the nil interface
+	case *ssa.ChangeType:
+		return definitelyNonNil(x.X)
+	}
+	return false
 }
 
 // removePred removes the i-th predecessor of b together with the matching
